@@ -4,12 +4,20 @@ import common as C
 import gen as G
 import docgen as D
 
-MODEL_TARGETS = ["model/Parse.vo", "model/SchemaJson.vo", "model/CanonicalForm.vo"]
+MODEL_TARGETS = ["model/Parse.vo", "model/SchemaJson.vo", "model/CanonicalForm.vo", "model/Freeze.vo"]
 COQ_TARGETS = ["props/C19.vo"]
-THEOREMS = [("C19", [])]
-PROOF_FILES = ["props/C19.v"]
-TRUSTED_BASE = []
-ASSUMPTIONS = []
+THEOREMS = [("C19", ["C19_parse_total", "C19_fp_total", "C19_json_total", "C19_freeze_total", "C19_freeze_keys", "C19_cyclecheck_linear"])]
+PROOF_FILES = ["proofs/SchemaTextProofs.v", "proofs/SchemaTotalProofs.v", "props/C19.v"]
+TRUSTED_BASE = [
+    "Coq 8.16.1 kernel; no axioms (Print Assumptions: closed)",
+    "hand-written models Parse.v (raw.rs + parsing/mod.rs + check_for_cycles.rs), CanonicalForm.v, SchemaJson.v (serialize.rs), Freeze.v/Schema.v (self_referential.rs) tied by the correspondence run",
+    "serde_json (lexing, recursion limit 128) is outside the model: the model starts at the JSON AST; Python's json module is used to obtain the AST for the model side",
+    "fuel is the model's stand-in for stack depth and running time: the theorems give an explicit bound (quadratic in the number of nodes) sufficient for ANY node vector; real stack usage per frame is not modelled -- each call on the crate runs in a child process whose death or timeout is a result",
+    "extraction (ExtrOcamlBasic) + ocaml/driver.ml; Rust harness",
+]
+ASSUMPTIONS = [
+    "'whenever freezing succeeds the schema can be used safely': proved part = every key of a frozen schema is in range (C19_freeze_keys); no-panic of serializer/deserializer on frozen schemas is C14_pool_inv / C04; the run exercises every frozen graph with hostile bytes and arbitrary presentations",
+]
 
 def text_to_ast(text):
     """Python's json with order, duplicates and number tokens preserved; None when Python and serde_json may disagree on validity"""
